@@ -1,3 +1,6 @@
+from tlexport import _verif
+
+
 class QuicDecryptor:
     def __init__(self, keys, bulk_cipher, early):
         self.keys = keys
@@ -15,6 +18,7 @@ class QuicDecryptor:
             self.client_bulk_cipher = bulk_cipher(self.client_key)
 
     # associated data: Quic Header from first byte up to and including the unprotected Packet Number
+    @_verif.traced("qdec", _verif.qdec_before, _verif.qdec_after)
     def decrypt(self, ciphertext: bytes, packet_number, associated_data: bytes, isserver: bool) -> bytes:
         if isserver:
             decryptor = self.server_bulk_cipher
